@@ -42,7 +42,7 @@ SCOPE = ('(1) rng threading: with the library-level generator replaced by an obj
          'Concrete side checks (not what the level rests on): two seeded environments per shipped configuration, interleaved with a third, '
          'and two interpreter processes with different PYTHONHASHSEED produce identical trajectories')
 BOUNDS = {
-    'quick': dict(threading='resets on shapes up to 5x5 (memory 5x5, rooms 5x5), transitions on 1x3/2x2 lazily symbolic states, observation functions on 2x2 worlds',
+    'quick': dict(interleaving='the shortest-path reward asked again after 0..2 questions of other environments (other exit, other layout, 12 layouts, ray fans)', threading='resets on shapes up to 5x5 (memory 5x5, rooms 5x5), transitions on 1x3/2x2 lazily symbolic states, observation functions on 2x2 worlds',
                   order_independence='memory 5x5 and memory_rooms 4x5 with colour sets of size 2..4 and every pair of iteration orders',
                   determinism='full stochastic chain on 1x3, stochastic observation on 2x2, resets as above',
                   side_checks='21 shipped configurations x 2 seeds x 30 steps; 4 shipped configs x 2 PYTHONHASHSEED values'),
